@@ -3,3 +3,9 @@ pub mod gens;
 pub mod memrelay;
 pub mod tcprelay;
 pub mod hooks;
+pub mod http1;
+pub mod relay_srv;
+pub mod dns_script;
+pub mod wsutil;
+pub mod remote;
+pub mod remote_actor;
